@@ -2,12 +2,6 @@
 // C02 / C11 / C15 / C17: definition streams, step streams and the wrapper stack (hand-written specs)
 // ======================================================================================
 
-/// whether `separate_block_expr` hoists the operands of this expression (a function of the expression;
-/// its meaning for ProcessExpr is pinned by V-C11a on `is_replaceable`)
-pub uninterp spec fn hoist_decision<E: InnerExpr>(e: E) -> bool;
-/// the expression `separate_block_expr` hands back with the hoisted operands replaced
-pub uninterp spec fn sep_replaced<E: InnerExpr>(e: E, b: usize, i: usize) -> E;
-
 pub open spec fn any_block(ops: Seq<Expr>) -> bool {
     exists|k: int| 0 <= k < ops.len() && (#[trigger] ops[k]) is Block
 }
@@ -32,20 +26,32 @@ pub open spec fn defs_toks(ops: Seq<Expr>, b: usize, i: usize, upto: int) -> Seq
     }
 }
 
-pub open spec fn hoisted<E: InnerExpr>(e: E) -> bool { hoist_decision(e) && any_block(e.operands()) }
+/// tokens the k-th operand is printed with after hoisting
+pub open spec fn replaced_toks(ops: Seq<Expr>, b: usize, i: usize, k: int) -> Seq<Tok> {
+    if ops[k] is Block { wrapper_name_toks(b, i, k as usize) } else { ops[k].toks() }
+}
 
-/// contract of `separate_block_expr` (ASSUMED: enumerate/fold/unzip are outside Verus; exercised by K-C11/K-C17)
-pub open spec fn sep_ok<E: InnerExpr>(e: E, b: usize, i: usize, r: (Option<TokenStream>, Option<E>)) -> bool {
+/// `x` is `e` with every block operand replaced by the name it was hoisted under (C10/C11/C17): the same operator,
+/// the same number of operands, the other operands spelled as before
+pub open spec fn hoisted_form<E: InnerExpr>(e: E, x: E, b: usize, i: usize) -> bool {
     let ops = e.operands();
-    if hoisted(e) {
-        &&& r.0 is Some && r.0->0@ == defs_toks(ops, b, i, ops.len() as int)
-        &&& r.1 == Some(sep_replaced(e, b, i))
-        &&& sep_replaced(e, b, i).ctor_of() == e.ctor_of()
-        &&& sep_replaced(e, b, i).operands().len() == ops.len()
-        &&& forall|k: int| 0 <= k < ops.len() ==> (#[trigger] sep_replaced(e, b, i).operands()[k]).toks()
-                == if ops[k] is Block { wrapper_name_toks(b, i, k as usize) } else { ops[k].toks() }
+    &&& any_block(ops)
+    &&& x.ctor_of() == e.ctor_of()
+    &&& x.operands().len() == ops.len()
+    &&& forall|k: int| 0 <= k < ops.len() ==> (#[trigger] x.operands()[k]).toks() == replaced_toks(ops, b, i, k) && !(x.operands()[k] is Block)
+}
+
+/// contract of `separate_block_expr` (VERIFIED in module `sep` for its three instantiations): either it answers
+/// (None, None) and the expression is printed as it is, or it answers the definitions of ALL block operands, in operand
+/// order, each named by (branch, action, operand index), together with the hoisted form of the expression
+pub open spec fn sep_ok_obs<E: InnerExpr>(e: E, b: usize, i: usize, r: (Option<TokenStream>, Option<E>)) -> bool {
+    let ops = e.operands();
+    if r.0 is Some {
+        &&& r.0->0@ == defs_toks(ops, b, i, ops.len() as int)
+        &&& r.1 is Some
+        &&& hoisted_form(e, r.1->0, b, i)
     } else {
-        r.0 is None && r.1 is None
+        r.1 is None
     }
 }
 
@@ -77,20 +83,37 @@ pub open spec fn step_toks(is_async: bool, prev: Seq<Tok>, e: ActionExpr) -> Seq
     }
 }
 
-pub open spec fn printed(e: ActionExpr, b: usize, i: usize) -> ActionExpr {
-    match e {
-        ActionExpr::Process(p) => ActionExpr::Process(if hoisted(p) { sep_replaced(p, b, i) } else { p }),
-        ActionExpr::Err(x) => ActionExpr::Err(if hoisted(x) { sep_replaced(x, b, i) } else { x }),
-        ActionExpr::Initial(x) => ActionExpr::Initial(if hoisted(x) { sep_replaced(x, b, i) } else { x }),
+/// `x` is what the action `e` at (branch b, position i) is printed as: `e` itself, or its hoisted form
+pub open spec fn printed_as(e: ActionExpr, x: ActionExpr, b: usize, i: usize) -> bool {
+    x == e || match (e, x) {
+        (ActionExpr::Process(p), ActionExpr::Process(q)) => hoisted_form(p, q, b, i),
+        (ActionExpr::Err(p), ActionExpr::Err(q)) => hoisted_form(p, q, b, i),
+        (ActionExpr::Initial(p), ActionExpr::Initial(q)) => hoisted_form(p, q, b, i),
+        _ => false,
     }
 }
 
-pub open spec fn action_defs(e: ActionExpr, b: usize, i: usize) -> Option<Seq<Tok>> {
-    match e {
-        ActionExpr::Process(p) => if hoisted(p) { Some(defs_toks(p.operands(), b, i, p.operands().len() as int)) } else { None },
-        ActionExpr::Err(x) => if hoisted(x) { Some(defs_toks(x.operands(), b, i, x.operands().len() as int)) } else { None },
-        ActionExpr::Initial(x) => if hoisted(x) { Some(defs_toks(x.operands(), b, i, x.operands().len() as int)) } else { None },
+/// the definitions an action contributes, given what it was printed as
+pub open spec fn defs_of(e: ActionExpr, x: ActionExpr, b: usize, i: usize) -> Option<Seq<Tok>> {
+    if x == e { None } else { Some(defs_toks(e.operands(), b, i, e.operands().len() as int)) }
+}
+
+/// C11: an action whose block operands MUST be hoisted: `<|`, `<=`, the initial value, and every `ProcessExpr`
+/// that takes expression operands and is not member access
+pub open spec fn hoists(e: ActionExpr) -> bool {
+    any_block(e.operands()) && match e {
+        ActionExpr::Process(p) => must_hoist(p.ctor_of(), p.operands().len() as int),
+        _ => true,
     }
+}
+
+/// one action against the definition stream and the step stream (C01/C10/C11/C17)
+pub open spec fn gdss_ok(is_async: bool, prev_def: Option<Seq<Tok>>, prev_step: Seq<Tok>, e: ActionExpr, b: usize, i: usize,
+                         x: ActionExpr, r: (Option<TokenStream>, TokenStream)) -> bool {
+    &&& (hoists(e) ==> x != e)
+    &&& ((e matches ActionExpr::Process(p) && must_not_hoist(p.ctor_of())) ==> x == e)
+    &&& opt_view(r.0) == opt_append(prev_def, defs_of(e, x, b, i))
+    &&& r.1@ == step_toks(is_async, prev_step, x)
 }
 
 /// an action the generator can print: everything but a bare `<<<`
@@ -151,16 +174,11 @@ pub broadcast proof fn lemma_step_toks1(is_async: bool, prev: Seq<Tok>, e: Actio
     }
 }
 
-/// an expression whose single operand is not a block is printed as it is (nothing to hoist)
-pub broadcast proof fn lemma_not_hoisted(e: ActionExpr, b: usize, i: usize)
-    requires e.operands().len() == 1, !(e.operands()[0] is Block),
-    ensures #[trigger] printed(e, b, i) == e, action_defs(e, b, i) is None,
+/// an expression without block operands is printed as it is (nothing to hoist)
+pub broadcast proof fn lemma_not_hoisted(e: ActionExpr, x: ActionExpr, b: usize, i: usize)
+    requires #[trigger] printed_as(e, x, b, i), !any_block(e.operands()),
+    ensures x == e,
 {
-    match e {
-        ActionExpr::Process(p) => { assert(!any_block(p.operands())); }
-        ActionExpr::Err(x) => { assert(!any_block(x.operands())); }
-        ActionExpr::Initial(x) => { assert(!any_block(x.operands())); }
-    }
 }
 
 /// the top of the stack after closing the innermost wrapper
